@@ -89,9 +89,19 @@ def mon_C03(h, ents, pend, raw):
 
 
 def head_indices(h):
+    """indices, among the final responses, of those that answer a HEAD request.  The scripted application answers
+    some requests with a 1xx status as its only response; such a response is not a final one for the recogniser,
+    so the requests it answers do not count"""
     if h["reqs"] is None:
         return None
-    return {i for i, rq in enumerate(h["reqs"]) if rq.method == b"HEAD"}
+    out, k = set(), 0
+    for rq in h["reqs"]:
+        if 100 <= rq.status < 200:
+            continue
+        if rq.method == b"HEAD":
+            out.add(k)
+        k += 1
+    return out
 
 
 def mon_C04(h, ents, pend, raw):
@@ -127,6 +137,27 @@ def mon_C09(h, ents, pend, raw):
     for cid, es in pc.items():
         if "TRUNCATED-WRITE" in es:
             out.append(("shutdown-while-write-in-flight", "c%d: the socket was shut down while a response write was still pending" % cid))
+    # the library closes a socket on its own initiative (not after an error on that connection, not because the
+    # application closed or destroyed the server) while a response write is still pending on it
+    pendw = {}
+    cur = ""
+    for e in ents:
+        if e.startswith("["):
+            cur = e
+            continue
+        m = re.match(r"c(\d+):(.*)", e)
+        if not m:
+            continue
+        cid, what = int(m.group(1)), m.group(2)
+        if what.startswith("write="):
+            pendw[cid] = True
+        elif what.startswith("wire=") or what.startswith("aborted-w"):
+            pendw[cid] = False
+        elif what == "close" and pendw.get(cid):
+            own_error = cur[1:2] in ("w", "E", "H", "S") and cur[2:].split(":")[0].rstrip("]") == str(cid)
+            if not own_error and cur[1:2] not in ("C", "K") and "UNDEFINED" not in raw:
+                out.append(("closed-while-write-in-flight", "c%d: the library closed the socket in %s while a response write was still pending on it" % (cid, cur)))
+            pendw[cid] = False
     if h["name"].startswith("expect chunked") and "perturbed" not in h["name"]:
         es = pc.get(1, [])
         closed_at = next((i for i, e in enumerate(es) if e in ("shutdown", "tls-shutdown")), None)
@@ -309,7 +340,9 @@ def mon_C19(h, ents, pend, raw):
     out = mon_basic(h, ents, pend, raw)
     if ents is None or h["flav"] != "tls":
         return out
-    out += [x for x in mon_C09(h, ents, pend, raw) if x not in out]
+    # "the same guarantees as over plain TCP": every server monitor applies to the TLS histories
+    for mon in (mon_C09, mon_C03, mon_C04, mon_C10, mon_C11, mon_C14, mon_C15):
+        out += [x for x in mon(h, ents, pend, raw) if x not in out]
     # a shutdown that answers the peer's own TLS shutdown / alert (read error event) is not the library's initiative
     peer_initiated = {}
     cur = None
